@@ -56,7 +56,7 @@ PLACES = ('none', 'cmd', 'args', 'working_dir', 'stdout_stream.filename', 'freef
 PERMS = ((0, 1, 2), (0, 2, 1), (1, 0, 2), (1, 2, 0), (2, 0, 1), (2, 1, 0))
 
 
-def build(genv, s1, s2, s3, order, ce, place, grp, inc, ce2=0):
+def build(genv, s1, s2, s3, order, ce, place, grp, inc, ce2=0, ref2=0):
     """-> (main ini text, included text or None, expected watchers {name: dict})"""
     env_sections = []
     if s1:
@@ -93,6 +93,9 @@ def build(genv, s1, s2, s3, order, ce, place, grp, inc, ce2=0):
         w1['copy_env'] = 'true'
     if ce2:
         w2['copy_env'] = 'yes'
+    if ref2:
+        # the second watcher refers to a variable that only the FIRST watcher's private section defines, and to the shared one
+        w2['args'] = '--only $(circus.env.ONLY1) --v $(circus.env.C16V)'
     w1.update(GROUPS[grp][0])
     lines = ['[circus]', 'check_delay = -1']
     if inc:
@@ -153,9 +156,13 @@ def build(genv, s1, s2, s3, order, ce, place, grp, inc, ce2=0):
         full.update(env)
         val = full.get('C16V')
 
+        only1 = full.get('ONLY1')
+
         def sub(s):
             for r in REFS:
                 s = s.replace(r, val) if val is not None else s
+            if only1 is not None:
+                s = s.replace('$(circus.env.ONLY1)', only1)       # otherwise an undefined reference stays as written
             return s
         for k in ('cmd', 'args', 'working_dir', 'plugin_hint'):
             if isinstance(e.get(k), str):
@@ -166,11 +173,12 @@ def build(genv, s1, s2, s3, order, ce, place, grp, inc, ce2=0):
     return text, included, exp
 
 
-def c16_config(genv: int, s1: int, s2: int, s3: int, order: int, ce: int, place: int, grp: int, inc: int, ce2: int) -> bool:
+def c16_config(genv: int, s1: int, s2: int, s3: int, order: int, ce: int, place: int, grp: int, inc: int, ce2: int, ref2: int) -> bool:
     """
     pre: 0 <= genv <= 2 and 0 <= s1 <= 1 and 0 <= s2 <= 1 and 0 <= s3 <= 2 and 0 <= order < 6 and 0 <= ce <= 1
     pre: place == rt.S['place'] and 0 <= grp < len(GROUPS) and 0 <= inc <= 1 and 0 <= ce2 <= 1
     pre: ce2 == 0 or (grp == 0 and inc == 0)
+    pre: 0 <= ref2 <= 1 and (ref2 == 0 or (grp == 0 and ce2 == 0))
     pre: order < (1, 1, 2, 6)[s1 + s2 + (s3 > 0)]
     pre: genv > 0 or s1 + s2 + (s3 > 0) > 0 or ce == 1 or place == 0
     post: _
@@ -185,11 +193,12 @@ def c16_config(genv: int, s1: int, s2: int, s3: int, order: int, ce: int, place:
     grp = rt.pick(grp, len(GROUPS))
     inc = rt.pick(inc, 2)
     ce2 = rt.pick(ce2, 2)
+    ref2 = rt.pick(ref2, 2)
     with rt.untraced():
-        return rt.verdict(_run(genv, s1, s2, s3, order, ce, place, grp, inc, ce2))
+        return rt.verdict(_run(genv, s1, s2, s3, order, ce, place, grp, inc, ce2, ref2))
 
 
-def _run(genv, s1, s2, s3, order, ce, place, grp, inc, ce2=0):
+def _run(genv, s1, s2, s3, order, ce, place, grp, inc, ce2=0, ref2=0):
     from circus.config import get_config
     from circus.watcher import Watcher
     tmp = tempfile.mkdtemp(prefix='c16_')
@@ -198,7 +207,7 @@ def _run(genv, s1, s2, s3, order, ce, place, grp, inc, ce2=0):
     os.environ['C16INC'] = tmp
     try:
         # w2 never matches env:w1; a reference is only placed when the variable is defined for w1 somewhere (always: os.environ)
-        text, included, exp = build(genv, s1, s2, s3, order, ce, place, grp, inc, ce2)
+        text, included, exp = build(genv, s1, s2, s3, order, ce, place, grp, inc, ce2, ref2)
         path = os.path.join(tmp, 'circus.ini')
         with open(path, 'w') as f:
             f.write(text)
